@@ -298,6 +298,8 @@ def check_group(acc, solver, tests, timeout="1s", extra=None, dump=None, reused=
                 for full, v in reported.items():
                     want = f"{full} = 0x{v:02x}" if v.bit_length() <= 8 else f"{full} = 0x{v:x}"
                     if full + " = " not in rr.stdout:
+                        if not m.is_valid:
+                            continue  # a model labelled invalid is only printed on request
                         acc.violation(f"printed:{name}:{solver}", f"[{name}] solver={solver}: the printed counterexample has no line for {full} (the solver assigned it {hexs(v)}): an input is left unassigned", case)
                     elif want not in rr.stdout and f"{full} = {hexs(v)}" not in rr.stdout:
                         acc.violation(f"printed:{name}:{solver}", f"[{name}] solver={solver}: printed counterexample does not show {want}", case)
